@@ -754,6 +754,12 @@ def run(ctx):
                   construct='%s: table mutation scan' % mod_.relpath, trivial=True)
     ctx.rule('R08l', 'accented characters are composed with NFC from the base letter and the combining mark (C03 R03g)', 1)
     _core.run_proxied(ctx, _c03, 'R08l', ('R03g',))
+    # ---- R08m (C04 R04o): what unicode_to_latex returns is what the rules and protections produced
+    ctx.rule('R08m', 'every return of unicode_to_latex returns the output it accumulated from the rules and their protection: no '
+                     'post-pass rewrites the encoded text (dropping the `{}` after a macro lets the following blank be eaten when '
+                     'the text is read back) (C04 R04o)', 1)
+    from . import c04 as _c04
+    _core.run_proxied(ctx, _c04, 'R08m', ('R04o',))
 
     return 'other', (
         'Evaluates the default encoder table against the evaluated default walker and latex2text '
